@@ -1,13 +1,13 @@
 package main
 
 import (
-	"time"
 	"fmt"
 	"math/rand"
 	"runtime"
 	"strconv"
 	"strings"
 	"sync"
+	"time"
 
 	"github.com/multiversx/mx-chain-storage-go/sharded"
 )
@@ -133,7 +133,7 @@ type shardRunner struct {
 }
 
 func (shardComp) NewRunner(begin string) Runner { return &shardRunner{} }
-func (r *shardRunner) Close()                  {}
+func (r *shardRunner) Close()                   {}
 
 type maskTriple struct {
 	hi, lo uint32
